@@ -8,8 +8,9 @@ python3 - <<'PY'
 import sys, os
 sys.path.insert(0, "lib")
 import vcheck
-vcheck.build_go()
-vcheck.regen_generated()
+import props
+vcheck.regen_generated(vcheck.all_generated())
+vcheck.build_go(sorted(set(P["binary"] for P in props.PROPS.values())))
 vcheck.ensure_makefile()
 ok, log = vcheck.make_targets([], timeout=7200)
 print(log[-3000:])
